@@ -19,5 +19,20 @@ func main() {
 	abuse()
 	suffix = "/after-accessor-use"
 	run(r)
+	// every exported constant as an input operand of every family of operations, then the enumeration again
+	useAsOperands()
+	if damagedBy != "" {
+		r.Violate("constant/modified-by-use-as-operand", "an exported constant object changed when it was passed as an input operand: "+damagedBy, Entry{"use-as-operand: " + damagedBy})
+		suffix = "/after-use-as-operands"
+		apiLevel(r)
+		r.Finish()
+		return
+	}
+	suffix = "/after-use-as-operands"
+	run(r)
+	// the tables while other goroutines use them, then the enumeration a last time
+	inUse(r)
+	suffix = "/after-concurrent-use"
+	run(r)
 	r.Finish()
 }
